@@ -173,6 +173,17 @@ COMPONENTS = [
     Component('inflate-alloc', check_alloc, cases=inflate_cases,
               distinct_by_construction=True, exhaustive=True,
               describe='every length field inflated; allocation bound'),
+    Component('deep-faults', check, cases=D.deep_fault_cases,
+              distinct_by_construction=True, exhaustive=True,
+              describe='container chains of every depth 1..64 with one located field '
+                       'rewritten (depth x pattern x leaf x mark x mode)'),
+    Component('deep-random', check, strategy=D.deep_random_cases,
+              budget={'quick': 4800, 'thorough': 96000},
+              describe='random chains of explicit depth 1..64 with 1-2 faults'),
+    Component('hostile-keys', check, cases=D.hostile_key_cases,
+              distinct_by_construction=True, exhaustive=True,
+              describe='templating-hostile table keys x every way a value can fail x '
+                       'nesting position x carrier frame'),
     Component('faulted', check, strategy=D.faulted_cases,
               budget={'quick': 12000, 'thorough': 480000},
               describe='generated wire frames with 1-2 faults'),
